@@ -225,6 +225,26 @@ def g_period(r):
     return s
 
 
+def g_duration_sp(r):
+    """a valid xs:duration spelling: (text, Gallina duration_sp term)"""
+    def n():
+        return str(r.choice([0, 1, 7, 12, 365, 10 ** 9, r.randint(0, 10 ** 12)])).zfill(r.choice([1, 1, 2, 5]))
+    comp = [n() if r.random() < 0.5 else None for _ in range(5)]
+    sec = (n(), n() if r.random() < 0.5 else "") if r.random() < 0.5 else None
+    if not any(comp) and sec is None:
+        comp[r.randrange(5)] = n()
+    neg = r.random() < 0.2
+    date = "".join(c + l for c, l in zip(comp[:3], "YMD") if c is not None)
+    time = "".join(c + l for c, l in zip(comp[3:], "HM") if c is not None)
+    if sec is not None:
+        time += sec[0] + ("." + sec[1] if sec[1] else "") + "S"
+    text = ("-" if neg else "") + "P" + date + ("T" + time if time else "")
+    oc = lambda x: copt(x, cstr)
+    term = (f"(mk_duration_sp {cbool(neg)} {oc(comp[0])} {oc(comp[1])} {oc(comp[2])} {oc(comp[3])} {oc(comp[4])} "
+            + ("None" if sec is None else f"(Some ({cstr(sec[0])}, {cstr(sec[1])}))") + ")")
+    return text, term
+
+
 def g_duration(r):
     def n():
         return str(r.choice([0, 1, 7, 12, 365, 10 ** 9, r.randint(0, 10 ** 12)]))
@@ -316,7 +336,9 @@ def run(ck: Check):
         add({"op": "time_std", "v": t}, kind="time_std")
     for _ in range(400 * N):
         add({"op": "period", "s": g_period(r)}, kind="period")
-        add({"op": "duration", "s": g_duration(r)}, kind="duration")
+        add({"op": "duration", "s": g_duration(r)}, kind="duration", sp=None)
+        t, term = g_duration_sp(r)
+        add({"op": "duration", "s": t}, kind="duration", sp=term)
 
     res = run_impl("impl_c06.py", ops, timeout=1800)
     ck.cov["evaluations"] = len(ops)
@@ -435,6 +457,15 @@ def run(ck: Check):
             ck.failure("duration-seconds", f"seconds of {it[1]['s']!r}", {"op": it[1], "impl": rs})
     for it in run_pred("agree_duration", "str * (option str * bool) * option (bool * list (option Z))", "agree_duration", items, terms):
         ck.failure("corr-duration", f"model and implementation disagree on XmlDuration({it[1]['s']!r}): impl={it[2]}", {"op": it[1], "impl": it[2]})
+    sp_items, sp_terms = [], []
+    for it, ax in zip(items, aux):
+        if it[3].get("sp"):
+            rs = it[2]
+            obs = "None" if "err" in rs else f"(Some ({cbool(rs['ok'][0])}, {tup(rs['ok'][1:6])}))"
+            sp_items.append(it)
+            sp_terms.append(f"({it[3]['sp']}, {cstr(it[1]['s'])}, {obs}, {copt(ax['sec'], cstr)})")
+    for it in run_pred("acc_duration", "duration_sp * str * option (bool * list (option Z)) * option str", "oracle_duration_accepts", sp_items, sp_terms):
+        ck.failure("duration-xsd-valid-not-accepted", f"XSD-valid duration {it[1]['s']!r} gave {it[2]}", {"op": it[1], "impl": it[2]})
 
     ck.cov["distinct_nontrivial"] = len(distinct)
     ck.cov["rule"] = ("strings: XSD-valid spellings from Spec.XsdDates descriptors (all year widths/signs, leap days, 24:00:00, 0-9 fraction digits, "
